@@ -1,94 +1,36 @@
 (* C05 — conflicts resolve by the documented priority / associativity /
    prefer-shift rules.
 
-   Model/Resolve.v mirrors LRTable::calculate_reductions (table/mod.rs:758-908)
-   cell by cell; Spec/ResolveSpec.v is the documented decision table [decide];
-   [decide_impl] is [decide] with the terminal-level associativity flipped.
-   Only statements here; proofs are in Proofs/Resolve.v.
-
-   Two parts of the property are FALSE of the faithful model (and of the real
-   compiler, see gen/c05.py which replays the witnesses on it):
-     * terminal-level associativity is read the wrong way round
-       (sr_cell_spec_refuted / sr_cell_spec_known, key terminal-assoc-inverted);
-     * "resolving never aborts the compiler": a cell holding a Shift and a
-       reduction that receives a winning reduction hits assert!(actions.len() == 1)
-       (resolve_no_panic_refuted / resolve_no_panic_known, key three-way-assert). *)
+   Model/Resolve.v mirrors LRTable::calculate_reductions (table/mod.rs, /repo HEAD
+   757ab19, i.e. with the repairs 3487517 — terminal-level associativity — and
+   a50fbd6 — no assert when a reduction overrides a shift in a cell that already
+   holds a reduction) cell by cell; Spec/ResolveSpec.v is the documented decision
+   table [decide]. Only statements here; proofs are in Proofs/Resolve.v.
+   All theorems are full statements: nothing is refuted any more; the former
+   counterexamples are kept below as regression Examples on the real tables the
+   repaired compiler produces. *)
 From RV Require Import Model.Resolve Spec.ResolveSpec Proofs.Resolve.
 
-(* ---- shift/reduce: what the code computes, for every priority, flag and cell ---- *)
+(* ---- shift/reduce: for every priority, flag and cell ---- *)
 
-(* A cell holding exactly one Shift/Accept receives Reduce(p,len): the result is the
-   documented table applied to the terminal associativity flipped. *)
-Theorem sr_cell_impl : forall g cfg maxprio a p len prod_len pr tm sh sprio,
+(* A cell holding exactly one Shift/Accept [sh] receives Reduce(p,len): the result is
+   exactly what the documented table prescribes: higher priority wins; on equal priority
+   the associativity decides, the terminal's overriding the production's, left keeps the
+   reduction and right keeps the shift; otherwise prefer_shifts / prefer_shifts_over_empty
+   keep the shift unless nops / nopse; otherwise both stay. Accept competes with
+   DEFAULT_PRIORITY, a Shift with max_prior_for_term. *)
+Theorem sr_cell_spec : forall g cfg maxprio a p len prod_len pr tm sh sprio,
   get_prod g p = Some pr -> nth_error (g_terms g) a = Some tm ->
   is_shiftlike sh = true -> shift_prio maxprio a sh = Some sprio ->
-  add_reduce g cfg maxprio a p len prod_len [sh] =
-  MDone (apply_decision
-           (decide_impl (p_prio pr) sprio (p_assoc pr) (t_assoc tm) (rhs_is_empty pr)
-                        (rs_prefer_shifts cfg) (rs_prefer_shifts_over_empty cfg) (p_nops pr) (p_nopse pr))
-           sh (Reduce p len)).
-Proof. exact sr_cell_impl_main. Qed.
-Print Assumptions sr_cell_impl.
-
-(* The property as documented holds for every conflict that is not decided by a
-   terminal-level associativity. *)
-Theorem sr_cell_spec_known : forall g cfg maxprio a p len prod_len pr tm sh sprio,
-  get_prod g p = Some pr -> nth_error (g_terms g) a = Some tm ->
-  is_shiftlike sh = true -> shift_prio maxprio a sh = Some sprio ->
-  term_assoc_decides_b (p_prio pr) sprio (t_assoc tm) = false ->
   add_reduce g cfg maxprio a p len prod_len [sh] =
   MDone (apply_decision
            (decide (p_prio pr) sprio (p_assoc pr) (t_assoc tm) (rhs_is_empty pr)
                    (rs_prefer_shifts cfg) (rs_prefer_shifts_over_empty cfg) (p_nops pr) (p_nopse pr))
            sh (Reduce p len)).
-Proof. exact sr_cell_spec_known_main. Qed.
-Print Assumptions sr_cell_spec_known.
+Proof. exact sr_cell_spec_main. Qed.
+Print Assumptions sr_cell_spec.
 
-(* ... and fails for EVERY conflict that is: terminal `left`/`reduce` keeps the shift,
-   terminal `right`/`shift` keeps the reduction. *)
-Theorem sr_cell_spec_class_differs : forall g cfg maxprio a p len prod_len pr tm sh sprio,
-  get_prod g p = Some pr -> nth_error (g_terms g) a = Some tm ->
-  is_shiftlike sh = true -> shift_prio maxprio a sh = Some sprio ->
-  term_assoc_decides_b (p_prio pr) sprio (t_assoc tm) = true ->
-  add_reduce g cfg maxprio a p len prod_len [sh] <>
-  MDone (apply_decision
-           (decide (p_prio pr) sprio (p_assoc pr) (t_assoc tm) (rhs_is_empty pr)
-                   (rs_prefer_shifts cfg) (rs_prefer_shifts_over_empty cfg) (p_nops pr) (p_nopse pr))
-           sh (Reduce p len)) /\
-  add_reduce g cfg maxprio a p len prod_len [sh] =
-  MDone (match t_assoc tm with ALeft => [sh] | _ => [Reduce p len] end).
-Proof. exact sr_cell_class_differs_main. Qed.
-Print Assumptions sr_cell_spec_class_differs.
-
-(* witness: state 4, terminal '+' of the real table of  E: E '+' E | 'n';  '+' {left}
-   (ex_g1 / ex_T1 below): the documentation prescribes the reduction, the cell keeps the shift *)
-Definition ex_g1 := mkGrammar [mkTerm 100 ANone (None); mkTerm 10 ALeft (Some 1); mkTerm 10 ANone (Some 1)] 3
-  [mkProd 4 [5] 10 ANone false false; mkProd 5 [5; 1; 5] 10 ANone false false; mkProd 5 [2] 10 ANone false false] (None) 5.
-Definition ex_T1 := mkTable
-  [mkState 4 [mkItem 0 0 [0]; mkItem 1 0 [0; 1]; mkItem 2 0 [0; 1]] [[]; []; [Shift 1]] [None; None; Some 2] [(2, true)] [(2, 10)];
-   mkState 2 [mkItem 2 1 [0; 1]] [[Reduce 2 1]; [Reduce 2 1]; []] [None; None; None] [(0, true); (1, true)] [];
-   mkState 5 [mkItem 0 1 [0]; mkItem 1 1 [0; 1]] [[Accept]; [Shift 3]; []] [None; None; None] [(0, true); (1, true)] [(1, 10)];
-   mkState 1 [mkItem 1 2 [0; 1]; mkItem 1 0 [0; 1]; mkItem 2 0 [0; 1]] [[]; []; [Shift 1]] [None; None; Some 4] [(2, true)] [(2, 10)];
-   mkState 5 [mkItem 1 3 [0; 1]; mkItem 1 1 [0; 1]] [[Reduce 1 3]; [Shift 3]; []] [None; None; None] [(0, true); (1, true)] [(1, 10)]]
-  (None) [[0]; [1]; [2]; [3]; [2]; [2]] (None).
-Definition ex_cfg_lr := mkRS false true false.
-
-Theorem sr_cell_spec_refuted : exists g cfg maxprio a p len prod_len pr tm sh sprio,
-  get_prod g p = Some pr /\ nth_error (g_terms g) a = Some tm /\
-  is_shiftlike sh = true /\ shift_prio maxprio a sh = Some sprio /\
-  add_reduce g cfg maxprio a p len prod_len [sh] <>
-  MDone (apply_decision
-           (decide (p_prio pr) sprio (p_assoc pr) (t_assoc tm) (rhs_is_empty pr)
-                   (rs_prefer_shifts cfg) (rs_prefer_shifts_over_empty cfg) (p_nops pr) (p_nopse pr))
-           sh (Reduce p len)).
-Proof.
-  exists ex_g1, ex_cfg_lr, [(1, 10)], 1, 1, 3, 3,
-         (mkProd 5 [5; 1; 5] 10 ANone false false), (mkTerm 10 ALeft (Some 1)), (Shift 3), 10.
-  vm_compute. repeat split; discriminate.
-Qed.
-Print Assumptions sr_cell_spec_refuted.
-
-(* the keywords (lang/rustemo_actions.rs: left = reduce, right = shift) *)
+(* the keywords (lang/rustemo_actions.rs: left = reduce, right = shift), on productions ... *)
 Theorem sr_prod_keyword : forall g cfg maxprio a p len prod_len pr tm sh sprio k,
   get_prod g p = Some pr -> nth_error (g_terms g) a = Some tm ->
   is_shiftlike sh = true -> shift_prio maxprio a sh = Some sprio ->
@@ -98,30 +40,46 @@ Theorem sr_prod_keyword : forall g cfg maxprio a p len prod_len pr tm sh sprio k
 Proof. exact sr_prod_keyword_main. Qed.
 Print Assumptions sr_prod_keyword.
 
+(* ... and on terminals, whatever the production says *)
 Theorem sr_term_keyword : forall g cfg maxprio a p len prod_len pr tm sh sprio k,
   get_prod g p = Some pr -> nth_error (g_terms g) a = Some tm ->
   is_shiftlike sh = true -> shift_prio maxprio a sh = Some sprio ->
   p_prio pr = sprio -> t_assoc tm = assoc_of_keyword k ->
   add_reduce g cfg maxprio a p len prod_len [sh] =
-  MDone (match k with KwLeft | KwReduce => [sh] | KwRight | KwShift => [Reduce p len] end).
+  MDone (match k with KwLeft | KwReduce => [Reduce p len] | KwRight | KwShift => [sh] end).
 Proof. exact sr_term_keyword_main. Qed.
 Print Assumptions sr_term_keyword.
 
-(* the same for a cell that already holds reductions next to its one Shift/Accept *)
+(* a cell that already holds reductions next to its one Shift/Accept: the shift wins and
+   the cell is unchanged; or the reduction wins, the Shift/Accept is removed and the
+   reductions of the cell meet the new one in the reduce/reduce step; or nothing decides
+   and the whole cell meets the new one in the reduce/reduce step *)
 Theorem sr_cell_general : forall g cfg maxprio a p len prod_len acts pr tm sh sprio,
   get_prod g p = Some pr -> nth_error (g_terms g) a = Some tm ->
   filter is_shiftlike acts = [sh] -> shift_prio maxprio a sh = Some sprio ->
   add_reduce g cfg maxprio a p len prod_len acts =
-  match decide_impl (p_prio pr) sprio (p_assoc pr) (t_assoc tm) (rhs_is_empty pr)
-                    (rs_prefer_shifts cfg) (rs_prefer_shifts_over_empty cfg) (p_nops pr) (p_nopse pr) with
+  match decide (p_prio pr) sprio (p_assoc pr) (t_assoc tm) (rhs_is_empty pr)
+               (rs_prefer_shifts cfg) (rs_prefer_shifts_over_empty cfg) (p_nops pr) (p_nopse pr) with
   | KeepShift => MDone acts
   | KeepReduce =>
-      if length acts =? 1 then MDone [Reduce p len]
-      else MPanic (if p_prio pr =? sprio then 821 else 851)
+      rr_step g cfg pr (Reduce p len) prod_len (filter is_reduce acts) (filter is_reduce acts)
   | KeepBoth => rr_step g cfg pr (Reduce p len) prod_len acts (filter is_reduce acts)
   end.
 Proof. exact add_reduce_one_shift. Qed.
 Print Assumptions sr_cell_general.
+
+(* three-way conflict won by the incoming reduction: same result as for the cell of
+   reductions alone (rr_cell_spec then says what that is) *)
+Theorem sr_three_way : forall g cfg maxprio a p len prod_len acts pr tm sh sprio,
+  get_prod g p = Some pr -> nth_error (g_terms g) a = Some tm ->
+  filter is_shiftlike acts = [sh] -> shift_prio maxprio a sh = Some sprio ->
+  decide (p_prio pr) sprio (p_assoc pr) (t_assoc tm) (rhs_is_empty pr)
+         (rs_prefer_shifts cfg) (rs_prefer_shifts_over_empty cfg) (p_nops pr) (p_nopse pr) = KeepReduce ->
+  filter is_reduce acts <> [] ->
+  add_reduce g cfg maxprio a p len prod_len acts =
+  add_reduce g cfg maxprio a p len prod_len (filter is_reduce acts).
+Proof. exact sr_three_way_main. Qed.
+Print Assumptions sr_three_way.
 
 (* ---- reduce/reduce ---- *)
 
@@ -180,85 +138,112 @@ Theorem resolve_subset : forall g cfg maxprio a p len prod_len acts acts',
 Proof. exact add_reduce_subset. Qed.
 Print Assumptions resolve_subset.
 
-(* ---- "resolving never aborts the compiler" ---- *)
+(* ---- resolving never aborts the compiler ---- *)
 
-(* FALSE: the real items of state 1 of  S: E; E: E '+' E | X | Y; X: 'a' '+'?; Y: 'a' {15};
-   (GLR, LALR_RN): cell '+' is [Shift 6; Reduce 5 1] when Reduce 8 1 of priority 15 arrives *)
+(* For every cell the table construction can produce — cell_wf_b: the production and the
+   terminal exist, the cell holds at most one Shift/Accept (the assert!(shifts.len() <= 1)),
+   a Shift has its entry in max_prior_for_term, the reductions already in the cell name
+   existing productions — add_reduce returns a cell. *)
+Theorem resolve_no_panic : forall g cfg maxprio a p len prod_len acts,
+  cell_wf_b g maxprio a p acts = true ->
+  exists acts', add_reduce g cfg maxprio a p len prod_len acts = MDone acts'.
+Proof. exact no_panic_main. Qed.
+Print Assumptions resolve_no_panic.
+
+(* for arbitrary (also ill-formed) input every panic is one of these five sites; the
+   panic!("This should not happen") on a non-Reduce action (P_NOT_REDUCE) is dead code *)
+Theorem resolve_panic_sites : forall g cfg maxprio a p len prod_len acts s,
+  add_reduce g cfg maxprio a p len prod_len acts = MPanic s ->
+  In s [P_PROD; P_TERM; P_SHIFTS; P_MAXPRIO; P_RPROD].
+Proof. exact panic_sites_main. Qed.
+Print Assumptions resolve_panic_sites.
+
+(* each of the five is reachable when the corresponding clause of cell_wf_b is dropped, so
+   none of the hypotheses of resolve_no_panic is superfluous *)
+Definition ex_gs := mkGrammar [mkTerm 100 ANone None; mkTerm 10 ANone (Some 1)] 3
+  [mkProd 3 [4] 10 ANone false false; mkProd 4 [1] 10 ANone false false] None 4.
+Theorem resolve_no_panic_hypotheses_needed :
+  add_reduce ex_gs (mkRS false true false) [] 1 7 1 1 [] = MPanic P_PROD /\
+  add_reduce ex_gs (mkRS false true false) [] 5 1 1 1 [] = MPanic P_TERM /\
+  add_reduce ex_gs (mkRS false true false) [(1, 10)] 1 1 1 1 [Shift 2; Shift 3] = MPanic P_SHIFTS /\
+  add_reduce ex_gs (mkRS false true false) [] 1 1 1 1 [Shift 2] = MPanic P_MAXPRIO /\
+  add_reduce ex_gs (mkRS false true false) [] 1 1 1 1 [Reduce 9 1] = MPanic P_RPROD.
+Proof. vm_compute. repeat split; reflexivity. Qed.
+Print Assumptions resolve_no_panic_hypotheses_needed.
+
+(* state level: starting from the cells calc_states leaves (one Shift per terminal after a dot),
+   with max_prior_for_term computed from the items, calculate_reductions completes every state
+   whose items pass the checker state_wf_b (productions exist, lookaheads are terminals, at most
+   one complete augmented item, no explicit STOP; evaluated on every state of every real dump by
+   gen/c05.py) *)
+Theorem state_no_panic : forall g cfg rn st real,
+  state_wf_b g rn st = true ->
+  exists cells,
+    calc_reductions_state g cfg rn st (maxprio_of_items g (s_items st)) (init_cells g st real) = RDone cells.
+Proof. exact state_no_panic_main. Qed.
+Print Assumptions state_no_panic.
+
+(* ---- regression examples: the former counterexamples on the repaired compiler's real tables ---- *)
+
+(* E: E '+' E | 'n';  '+' {left}  (LR, LALR_PAGER): state 4, terminal '+' now holds the reduction *)
+Definition ex_g1 := mkGrammar [mkTerm 100 ANone (None); mkTerm 10 ALeft (Some 1); mkTerm 10 ANone (Some 1)] 3
+  [mkProd 4 [5] 10 ANone false false; mkProd 5 [5; 1; 5] 10 ANone false false; mkProd 5 [2] 10 ANone false false] (None) 5.
+Definition ex_T1 := mkTable
+  [mkState 4 [mkItem 0 0 [0]; mkItem 1 0 [0; 1]; mkItem 2 0 [0; 1]] [[]; []; [Shift 1]] [None; None; Some 2] [(2, true)] [(2, 10)];
+   mkState 2 [mkItem 2 1 [0; 1]] [[Reduce 2 1]; [Reduce 2 1]; []] [None; None; None] [(0, true); (1, true)] [];
+   mkState 5 [mkItem 0 1 [0]; mkItem 1 1 [0; 1]] [[Accept]; [Shift 3]; []] [None; None; None] [(0, true); (1, true)] [(1, 10)];
+   mkState 1 [mkItem 1 2 [0; 1]; mkItem 1 0 [0; 1]; mkItem 2 0 [0; 1]] [[]; []; [Shift 1]] [None; None; Some 4] [(2, true)] [(2, 10)];
+   mkState 5 [mkItem 1 3 [0; 1]; mkItem 1 1 [0; 1]] [[Reduce 1 3]; [Reduce 1 3]; []] [None; None; None] [(0, true); (1, true)] [(1, 10)]]
+  (None) [[0]; [1]; [2]; [3]; [2]; [2]] (None).
+Definition ex_cfg_lr := mkRS false true false.
+
+Example terminal_left_keeps_reduction :
+  resolve_ok_b ex_g1 ex_cfg_lr ex_T1 = true /\
+  forallb (state_wf_b ex_g1 (t_rn ex_T1)) (t_states ex_T1) = true /\
+  add_reduce ex_g1 ex_cfg_lr [(1, 10)] 1 1 3 3 [Shift 3] = MDone [Reduce 1 3].
+Proof. vm_compute. repeat split; reflexivity. Qed.
+
+(* S: E; E: E '+' E | X | Y; X: 'a' '+'?; Y: 'a' {15};  (GLR, LALR_RN; DESIGN.md §9 F5): in state 1
+   the cell of '+' is [Shift 6; Reduce 5 1] when Reduce 8 1 of priority 15 arrives; the compile used
+   to abort, now the Shift is removed and Reduce 8 1 replaces the lower-priority reduction *)
 Definition ex_g5 := mkGrammar [mkTerm 100 ANone (None); mkTerm 10 ANone (Some 1); mkTerm 10 ANone (Some 1)] 7
   [mkProd 4 [5] 10 ANone false false; mkProd 5 [6] 10 ANone false false; mkProd 6 [6; 1; 6] 10 ANone false false;
    mkProd 6 [7] 10 ANone false false; mkProd 6 [9] 10 ANone false false; mkProd 7 [2; 8] 10 ANone false false;
    mkProd 8 [1] 10 ANone false false; mkProd 8 [] 10 ANone false false; mkProd 9 [2] 15 ANone false false] (None) 5.
 Definition ex_cfg_glr := mkRS false false true.
-
-Theorem resolve_no_panic_refuted : exists g cfg maxprio a p len prod_len acts,
-  cell_wf_b g maxprio a p acts = true /\
-  add_reduce g cfg maxprio a p len prod_len acts = MPanic 851.
-Proof.
-  exists ex_g5, ex_cfg_glr, [(1, 10)], 1, 8, 1, 1, [Shift 6; Reduce 5 1].
-  vm_compute. split; reflexivity.
-Qed.
-Print Assumptions resolve_no_panic_refuted.
-
-(* outside the three-way class no cell that the table construction can produce panics *)
-Theorem resolve_no_panic_known : forall g cfg maxprio a p len prod_len acts,
-  cell_wf_b g maxprio a p acts = true ->
-  three_way_b g maxprio a p acts = false ->
-  exists acts', add_reduce g cfg maxprio a p len prod_len acts = MDone acts'.
-Proof. exact no_panic_known_main. Qed.
-Print Assumptions resolve_no_panic_known.
-
-(* inside it every cell panics, at one of the two asserts *)
-Theorem three_way_panics : forall g cfg maxprio a p len prod_len acts,
-  cell_wf_b g maxprio a p acts = true ->
-  three_way_b g maxprio a p acts = true ->
-  add_reduce g cfg maxprio a p len prod_len acts = MPanic 821 \/
-  add_reduce g cfg maxprio a p len prod_len acts = MPanic 851.
-Proof. exact three_way_panics_main. Qed.
-Print Assumptions three_way_panics.
-
-(* the panic! at line 869 is dead; every panic is one of these sites, for arbitrary input *)
-Theorem resolve_panic_sites : forall g cfg maxprio a p len prod_len acts s,
-  add_reduce g cfg maxprio a p len prod_len acts = MPanic s ->
-  In s [765; 782; 796; 805; 821; 851; 867].
-Proof. exact panic_sites_main. Qed.
-Print Assumptions resolve_panic_sites.
-
-(* state level: starting from the cells calc_states leaves (one Shift per terminal after a dot),
-   with max_prior_for_term computed from the items, a state whose items pass the checker
-   state_wf_b (productions exist, lookaheads are terminals, at most one complete augmented item,
-   no explicit STOP; evaluated on every state of every real dump by gen/c05.py) can only abort
-   at the three-way assert *)
-Theorem state_panic_only_three_way : forall g cfg rn st real s,
-  state_wf_b g rn st = true ->
-  calc_reductions_state g cfg rn st (maxprio_of_items g (s_items st)) (init_cells g st real) = RPanic s ->
-  s = 821 \/ s = 851.
-Proof. exact state_panic_only_three_way_main. Qed.
-Print Assumptions state_panic_only_three_way.
-
-(* ---- non-vacuity on real dumps ---- *)
-
-(* the model reproduces every cell and max_prior_for_term of the real table ex_T1 *)
-Example resolve_ok_nonvacuous : resolve_ok_b ex_g1 ex_cfg_lr ex_T1 = true.
-Proof. vm_compute. reflexivity. Qed.
-
-(* the real table of the F5 grammar without its priority (the real compile of ex_g5 panics
-   and leaves no table); on its state 1 the model panics at the same assert *)
 Definition ex_T5 := mkTable
-  [mkState 4 [mkItem 0 0 [0]; mkItem 1 0 [0]; mkItem 2 0 [0; 1]; mkItem 3 0 [0; 1]; mkItem 4 0 [0; 1]; mkItem 5 0 [0; 1]; mkItem 8 0 [0; 1]] [[]; []; [Shift 1]] [None; None; Some 2; Some 3; Some 4; None; Some 5] [(2, true)] [(2, 10)];
-   mkState 2 [mkItem 5 1 [0; 1]; mkItem 8 1 [0; 1]; mkItem 6 0 [0; 1]; mkItem 7 0 [0; 1]] [[Reduce 5 1; Reduce 8 1; Reduce 7 0]; [Shift 6; Reduce 5 1; Reduce 8 1; Reduce 7 0]; []] [None; None; None; None; None; Some 7; None] [(0, true); (1, true)] [(1, 10)];
+  [mkState 4 [mkItem 0 0 [0]; mkItem 1 0 [0]; mkItem 2 0 [0; 1]; mkItem 3 0 [0; 1]; mkItem 4 0 [0; 1]; mkItem 5 0 [0; 1]; mkItem 8 0 [0; 1]] [[]; []; [Shift 1]] [None; None; Some 2; Some 3; Some 4; None; Some 5] [(2, true)] [(2, 15)];
+   mkState 2 [mkItem 5 1 [0; 1]; mkItem 8 1 [0; 1]; mkItem 6 0 [0; 1]; mkItem 7 0 [0; 1]] [[Reduce 8 1]; [Reduce 8 1]; []] [None; None; None; None; None; Some 7; None] [(0, true); (1, true)] [(1, 10)];
    mkState 5 [mkItem 0 1 [0]] [[Accept]; []; []] [None; None; None; None; None; None; None] [(0, false)] [];
    mkState 6 [mkItem 1 1 [0]; mkItem 2 1 [0; 1]] [[Reduce 1 1]; [Shift 8]; []] [None; None; None; None; None; None; None] [(0, true); (1, true)] [(1, 10)];
    mkState 7 [mkItem 3 1 [0; 1]] [[Reduce 3 1]; [Reduce 3 1]; []] [None; None; None; None; None; None; None] [(0, true); (1, true)] [];
    mkState 9 [mkItem 4 1 [0; 1]] [[Reduce 4 1]; [Reduce 4 1]; []] [None; None; None; None; None; None; None] [(0, true); (1, true)] [];
    mkState 1 [mkItem 6 1 [0; 1]] [[Reduce 6 1]; [Reduce 6 1]; []] [None; None; None; None; None; None; None] [(0, true); (1, true)] [];
    mkState 8 [mkItem 5 2 [0; 1]] [[Reduce 5 2]; [Reduce 5 2]; []] [None; None; None; None; None; None; None] [(0, true); (1, true)] [];
-   mkState 1 [mkItem 2 2 [0; 1]; mkItem 2 0 [0; 1]; mkItem 3 0 [0; 1]; mkItem 4 0 [0; 1]; mkItem 5 0 [0; 1]; mkItem 8 0 [0; 1]] [[]; []; [Shift 1]] [None; None; None; Some 9; Some 4; None; Some 5] [(2, true)] [(2, 10)];
+   mkState 1 [mkItem 2 2 [0; 1]; mkItem 2 0 [0; 1]; mkItem 3 0 [0; 1]; mkItem 4 0 [0; 1]; mkItem 5 0 [0; 1]; mkItem 8 0 [0; 1]] [[]; []; [Shift 1]] [None; None; None; Some 9; Some 4; None; Some 5] [(2, true)] [(2, 15)];
    mkState 6 [mkItem 2 3 [0; 1]; mkItem 2 1 [0; 1]] [[Reduce 2 3]; [Shift 8; Reduce 2 3]; []] [None; None; None; None; None; None; None] [(0, true); (1, true)] [(1, 10)]]
   (None) [[0]; [1]; [2]; [3]; [2]; [2]; [2]; [2]; [1; 3]; [2]] (Some [1; 1; 3; 1; 1; 1; 1; 0; 1]).
 
-Example three_way_real_state :
-  first_panic ex_g5 ex_cfg_glr (t_rn ex_T5) (t_states ex_T5) 0 = Some (1, 851) /\
-  three_way_b ex_g5 [(1, 10)] 1 8 [Shift 6; Reduce 5 1] = true /\
+Example three_way_resolved :
+  resolve_ok_b ex_g5 ex_cfg_glr ex_T5 = true /\
   forallb (state_wf_b ex_g5 (t_rn ex_T5)) (t_states ex_T5) = true /\
-  forallb (state_wf_b ex_g1 (t_rn ex_T1)) (t_states ex_T1) = true.
+  add_reduce ex_g5 ex_cfg_glr [(1, 10)] 1 8 1 1 [Shift 6; Reduce 5 1] = MDone [Reduce 8 1].
 Proof. vm_compute. repeat split; reflexivity. Qed.
+
+(* S: S A | 'a'; A: EMPTY | 'b';  (LR, prefer_shifts_over_empty off): the unresolved Accept/Reduce
+   cell [Accept; Reduce 3 0] of state 2 is what the model computes (the compiler now reports it) *)
+Definition ex_ga := mkGrammar [mkTerm 100 ANone (None); mkTerm 10 ANone (Some 1); mkTerm 10 ANone (Some 1)] 4
+  [mkProd 4 [5] 10 ANone false false; mkProd 5 [5; 6] 10 ANone false false; mkProd 5 [1] 10 ANone false false;
+   mkProd 6 [] 10 ANone false false; mkProd 6 [2] 10 ANone false false] (None) 5.
+Definition ex_Ta := mkTable
+  [mkState 4 [mkItem 0 0 [0]; mkItem 1 0 [0; 2]; mkItem 2 0 [0; 2]] [[]; [Shift 1]; []] [None; None; Some 2; None] [(1, true)] [(1, 10)];
+   mkState 1 [mkItem 2 1 [0; 2]] [[Reduce 2 1]; []; [Reduce 2 1]] [None; None; None; None] [(0, true); (2, true)] [];
+   mkState 5 [mkItem 0 1 [0]; mkItem 1 1 [0; 2]; mkItem 3 0 [0; 2]; mkItem 4 0 [0; 2]] [[Accept; Reduce 3 0]; []; [Shift 3; Reduce 3 0]] [None; None; None; Some 4] [(0, true); (2, true)] [(2, 10)];
+   mkState 2 [mkItem 4 1 [0; 2]] [[Reduce 4 1]; []; [Reduce 4 1]] [None; None; None; None] [(0, true); (2, true)] [];
+   mkState 6 [mkItem 1 2 [0; 2]] [[Reduce 1 2]; []; [Reduce 1 2]] [None; None; None; None] [(0, true); (2, true)] []]
+  (None) [[0]; [1]; [2]; [3]; [1]; [1]; [2; 3]] (None).
+
+Example accept_reduce_conflict_kept :
+  resolve_ok_b ex_ga (mkRS false false false) ex_Ta = true /\
+  forallb (state_wf_b ex_ga (t_rn ex_Ta)) (t_states ex_Ta) = true.
+Proof. vm_compute. split; reflexivity. Qed.
